@@ -1,46 +1,78 @@
-(* channel.go, synchronous channel (no write queue): every write entry point
-   checks closed-ness, takes the write lock, calls transport.Write/Writev and,
-   if that succeeded, transport.Flush, and releases the lock (deferred).  One
-   step = one hook-to-hook stretch (w.check, w.lock, t.write, t.flush).  Closing
-   is a single environment step here (its protocol is C05's subject). *)
+(* channel.go, synchronous channel (no write queue).  Every write entry point
+   (Write1, Writev, CtxWrite1, CtxWritev, Writer().Write) checks closedErr
+   (closed flag or ended context), takes the write lock, calls
+   transport.Write/Writev and, if that succeeded, transport.Flush, and releases
+   the lock (deferred) on every path.  Close: CAS on the closed flag (losers
+   return at once), store the error, transport.Close, cancel the context, fire
+   the inactive event.  One step = one hook-to-hook stretch of the real code
+   (w.check, w.lock, t.write, t.flush; c.cas, c.seterr, c.tclose, t.close,
+   c.cancel, c.inactive), so the model replays the very schedules the harness
+   runs (Model/SyncCheck.v).  The transport fails a write/flush once it has been
+   closed, or when the environment injects a failure (flag of the event). *)
 From Coq Require Import List Arith Bool.
 Import ListNotations.
 
 Inductive ypc := YCheck | YLock | YWrite | YFlush.
 Inductive yres := YOk | YClosed | YFail.
-Inductive ythread := YWriter (calls : list nat) (pc : ypc) (res : list (nat * yres)) | YDone.
-Record sst := { sc_lock : option nat; sc_closed : bool; sc_tclosed : bool;
-                sc_tlog : list nat; sc_accepted : list nat; sc_flushed : nat; sc_threads : list ythread }.
+Inductive ykpc := KCas | KSetErr | KTClose | KTClosing | KCancel | KInactive.
+Inductive ythread :=
+  | YWriter (calls : list nat) (pc : ypc) (res : list (nat * yres))
+  | YCloser (err : nat) (pc : ykpc)
+  | YDone.
+Record sst := { sc_lock : option nat; sc_closed : bool; sc_ctx : bool; sc_tclosed : nat;
+                sc_tlog : list nat; sc_flushed : nat; sc_creturned : bool; sc_winner : option nat;
+                sc_inactive : list nat; sc_threads : list ythread }.
 
 Fixpoint yupd (l : list ythread) (i : nat) (x : ythread) : list ythread :=
   match l, i with [], _ => [] | _ :: t, O => x :: t | h :: t, S i => h :: yupd t i x end.
-Definition y_set (s : sst) (lk : option nat) (tl ac : list nat) (fl : nat) (i : nat) (t : ythread) : sst :=
-  {| sc_lock := lk; sc_closed := sc_closed s; sc_tclosed := sc_tclosed s; sc_tlog := tl; sc_accepted := ac;
-     sc_flushed := fl; sc_threads := yupd (sc_threads s) i t |}.
+(* writer steps change the lock, the transport log and the flush mark only *)
+Definition y_set (s : sst) (lk : option nat) (tl : list nat) (fl : nat) (i : nat) (t : ythread) : sst :=
+  {| sc_lock := lk; sc_closed := sc_closed s; sc_ctx := sc_ctx s; sc_tclosed := sc_tclosed s; sc_tlog := tl;
+     sc_flushed := fl; sc_creturned := sc_creturned s; sc_winner := sc_winner s; sc_inactive := sc_inactive s;
+     sc_threads := yupd (sc_threads s) i t |}.
+(* closer steps change the close-protocol fields only *)
+Definition k_set (s : sst) (cl cx : bool) (tc : nat) (cr : bool) (w : option nat) (ina : list nat) (i : nat) (t : ythread) : sst :=
+  {| sc_lock := sc_lock s; sc_closed := cl; sc_ctx := cx; sc_tclosed := tc; sc_tlog := sc_tlog s;
+     sc_flushed := sc_flushed s; sc_creturned := cr; sc_winner := w; sc_inactive := ina;
+     sc_threads := yupd (sc_threads s) i t |}.
 Definition y_ret (calls : list nat) (res : list (nat * yres)) (r : yres) : ythread :=
   match calls with [] => YDone | c :: rest => YWriter rest YCheck (res ++ [(c, r)]) end.
+(* closedErr(): the closed flag or the channel context *)
+Definition closed_err (s : sst) : bool := orb (sc_closed s) (sc_ctx s).
 
-Inductive yev := YRun (i : nat) | YClose.
+Inductive yev := YRun (i : nat) (fail : bool) | YParent.
 Definition sc_step (s : sst) (e : yev) : option sst :=
   match e with
-  | YClose => Some {| sc_lock := sc_lock s; sc_closed := true; sc_tclosed := true; sc_tlog := sc_tlog s;
-                      sc_accepted := sc_accepted s; sc_flushed := sc_flushed s; sc_threads := sc_threads s |}
-  | YRun i =>
+  | YParent => Some {| sc_lock := sc_lock s; sc_closed := sc_closed s; sc_ctx := true; sc_tclosed := sc_tclosed s;
+                       sc_tlog := sc_tlog s; sc_flushed := sc_flushed s; sc_creturned := sc_creturned s;
+                       sc_winner := sc_winner s; sc_inactive := sc_inactive s; sc_threads := sc_threads s |}
+  | YRun i f =>
     match nth_error (sc_threads s) i with
     | Some (YWriter (c :: rest) pc res) =>
       match pc with
-      | YCheck => if sc_closed s then Some (y_set s (sc_lock s) (sc_tlog s) (sc_accepted s) (sc_flushed s) i (y_ret (c :: rest) res YClosed))
-                  else Some (y_set s (sc_lock s) (sc_tlog s) (sc_accepted s) (sc_flushed s) i (YWriter (c :: rest) YLock res))
+      | YCheck => if closed_err s then Some (y_set s (sc_lock s) (sc_tlog s) (sc_flushed s) i (y_ret (c :: rest) res YClosed))
+                  else Some (y_set s (sc_lock s) (sc_tlog s) (sc_flushed s) i (YWriter (c :: rest) YLock res))
       | YLock => match sc_lock s with
                  | Some _ => None                                   (* parked on the mutex *)
-                 | None => Some (y_set s (Some i) (sc_tlog s) (sc_accepted s) (sc_flushed s) i (YWriter (c :: rest) YWrite res))
+                 | None => Some (y_set s (Some i) (sc_tlog s) (sc_flushed s) i (YWriter (c :: rest) YWrite res))
                  end
-      | YWrite => if sc_tclosed s
-                  then Some (y_set s None (sc_tlog s) (sc_accepted s) (sc_flushed s) i (y_ret (c :: rest) res YFail))   (* write failed: unlock, return *)
-                  else Some (y_set s (sc_lock s) (sc_tlog s ++ [c]) (sc_accepted s ++ [c]) (sc_flushed s) i (YWriter (c :: rest) YFlush res))
-      | YFlush => if sc_tclosed s
-                  then Some (y_set s None (sc_tlog s) (sc_accepted s) (sc_flushed s) i (y_ret (c :: rest) res YFail))
-                  else Some (y_set s None (sc_tlog s) (sc_accepted s) (length (sc_tlog s)) i (y_ret (c :: rest) res YOk))
+      | YWrite => if orb (0 <? sc_tclosed s) f
+                  then Some (y_set s None (sc_tlog s) (sc_flushed s) i (y_ret (c :: rest) res YFail))   (* write failed: unlock, return *)
+                  else Some (y_set s (sc_lock s) (sc_tlog s ++ [c]) (sc_flushed s) i (YWriter (c :: rest) YFlush res))
+      | YFlush => if orb (0 <? sc_tclosed s) f
+                  then Some (y_set s None (sc_tlog s) (sc_flushed s) i (y_ret (c :: rest) res YFail))
+                  else Some (y_set s None (sc_tlog s) (length (sc_tlog s)) i (y_ret (c :: rest) res YOk))
+      end
+    | Some (YCloser e pc) =>
+      match pc with
+      | KCas => if sc_closed s
+                then Some (k_set s true (sc_ctx s) (sc_tclosed s) true (sc_winner s) (sc_inactive s) i YDone)     (* lost: Close returns *)
+                else Some (k_set s true (sc_ctx s) (sc_tclosed s) (sc_creturned s) (Some e) (sc_inactive s) i (YCloser e KSetErr))
+      | KSetErr => Some (k_set s (sc_closed s) (sc_ctx s) (sc_tclosed s) (sc_creturned s) (sc_winner s) (sc_inactive s) i (YCloser e KTClose))
+      | KTClose => Some (k_set s (sc_closed s) (sc_ctx s) (sc_tclosed s) (sc_creturned s) (sc_winner s) (sc_inactive s) i (YCloser e KTClosing))
+      | KTClosing => Some (k_set s (sc_closed s) (sc_ctx s) (S (sc_tclosed s)) (sc_creturned s) (sc_winner s) (sc_inactive s) i (YCloser e KCancel))
+      | KCancel => Some (k_set s (sc_closed s) true (sc_tclosed s) (sc_creturned s) (sc_winner s) (sc_inactive s) i (YCloser e KInactive))
+      | KInactive => Some (k_set s (sc_closed s) (sc_ctx s) (sc_tclosed s) true (sc_winner s) (sc_inactive s ++ [e]) i YDone)
       end
     | _ => None
     end
@@ -48,16 +80,23 @@ Definition sc_step (s : sst) (e : yev) : option sst :=
 Fixpoint sc_run (s : sst) (sched : list yev) : sst :=
   match sched with [] => s | e :: r => match sc_step s e with Some s' => sc_run s' r | None => sc_run s r end end.
 Definition sc_init (ths : list ythread) : sst :=
-  {| sc_lock := None; sc_closed := false; sc_tclosed := false; sc_tlog := []; sc_accepted := []; sc_flushed := 0; sc_threads := ths |}.
+  {| sc_lock := None; sc_closed := false; sc_ctx := false; sc_tclosed := 0; sc_tlog := []; sc_flushed := 0;
+     sc_creturned := false; sc_winner := None; sc_inactive := []; sc_threads := ths |}.
 
+(* payloads a writer may still hand to the transport *)
 Definition y_pending (t : ythread) : list nat :=
   match t with
   | YWriter calls (YCheck | YLock | YWrite) _ => calls
   | YWriter calls YFlush _ => tl calls
-  | YDone => []
+  | _ => []
   end.
 Fixpoint nodup_nat (l : list nat) : bool :=
   match l with [] => true | x :: r => andb (negb (existsb (Nat.eqb x) r)) (nodup_nat r) end.
 Definition sc_wf (ths : list ythread) : bool :=
-  andb (forallb (fun t => match t with YWriter _ YCheck [] => true | YDone => true | _ => false end) ths)
+  andb (forallb (fun t => match t with YWriter _ YCheck [] => true | YCloser _ KCas => true | YDone => true | _ => false end) ths)
        (nodup_nat (flat_map y_pending ths)).
+
+(* is thread i able to take a step (with a transport that does not fail by injection)? *)
+Definition y_enabled (s : sst) (i : nat) : bool := match sc_step s (YRun i false) with Some _ => true | None => false end.
+Definition y_finished (t : ythread) : bool :=
+  match t with YDone => true | YWriter [] _ _ => true | _ => false end.
